@@ -77,63 +77,46 @@ func MatchWildcard(text, pattern, delimiter string) bool {
 	return doWildcardMatch(text, pattern, delimiter, 0, 0)
 }
 
-// doWildcardMatch performs recursive wildcard matching
+// doWildcardMatch reports whether text[textPos:] matches pattern[patternPos:].
+//
+// It keeps one row of booleans over the suffixes of the text: row[i] tells
+// whether text[i:] matches the part of the pattern handled so far. The row
+// starts as the row of the empty pattern and is rewritten once per pattern
+// byte, from the last byte back to patternPos, so the work is bounded by
+// len(pattern) * (len(text)+1) steps whatever the number of wildcards
+// (the former recursive version backtracked exponentially on patterns such
+// as "*a*a*a*a*b").
 func doWildcardMatch(text, pattern, delimiter string, textPos, patternPos int) bool {
-	for patternPos < len(pattern) {
-		switch pattern[patternPos] {
+	n := len(text)
+	if textPos > n {
+		textPos = n
+	}
+
+	row := make([]bool, n+1)
+	row[n] = true // the empty pattern matches only the empty text
+
+	for p := len(pattern) - 1; p >= patternPos; p-- {
+		switch pattern[p] {
 		case '*':
 			// * matches zero or more characters
-			patternPos++
-			if patternPos >= len(pattern) {
-				return true // * at end matches everything
+			for i := n - 1; i >= textPos; i-- {
+				row[i] = row[i] || row[i+1]
 			}
-
-			// Try matching * with zero characters first
-			if doWildcardMatch(text, pattern, delimiter, textPos, patternPos) {
-				return true
-			}
-
-			// Try matching * with one or more characters
-			for textPos < len(text) {
-				textPos++
-				if doWildcardMatch(text, pattern, delimiter, textPos, patternPos) {
-					return true
-				}
-			}
-			return false
 
 		case '%':
-			// % matches zero or more characters but not hierarchy delimiter
-			patternPos++
-			if patternPos >= len(pattern) {
-				// % at end - check if remaining text contains delimiter
-				return !strings.Contains(text[textPos:], delimiter)
+			// % matches zero or more characters but not the hierarchy delimiter
+			for i := n - 1; i >= textPos; i-- {
+				row[i] = row[i] || (row[i+1] && !strings.HasPrefix(text[i:], delimiter))
 			}
-
-			// Try matching % with zero characters first
-			if doWildcardMatch(text, pattern, delimiter, textPos, patternPos) {
-				return true
-			}
-
-			// Try matching % with one or more characters (but not delimiter)
-			for textPos < len(text) && !strings.HasPrefix(text[textPos:], delimiter) {
-				textPos++
-				if doWildcardMatch(text, pattern, delimiter, textPos, patternPos) {
-					return true
-				}
-			}
-			return false
 
 		default:
 			// Regular character - must match exactly
-			if textPos >= len(text) || text[textPos] != pattern[patternPos] {
-				return false
+			for i := textPos; i < n; i++ {
+				row[i] = text[i] == pattern[p] && row[i+1]
 			}
-			textPos++
-			patternPos++
+			row[n] = false
 		}
 	}
 
-	// Pattern consumed - text should also be consumed
-	return textPos >= len(text)
+	return row[textPos]
 }
